@@ -414,7 +414,10 @@ func Chunk[S ~[]E, E any](slice S, size int) []S {
 	}
 	div := len(slice) / size
 	rounded := div * size
-	lim := div + (len(slice) - rounded)
+	lim := div
+	if rounded != len(slice) {
+		lim++
+	}
 	chunks := make([]S, lim)
 	for i, j := 0, 0; j < rounded; i, j = i+1, j+size {
 		chunks[i] = slice[j : j+size]
